@@ -38,7 +38,7 @@ void run_regs(const char *input) {
         printf(" ");
         for (i = 0; i < SCPI_REG_COUNT; i++) printf("%s%04x", i ? "." : "", (unsigned) SCPI_RegGet(&e.ctx, (scpi_reg_name_t) i));
         printf(",%d,", (int) SCPI_ErrorCount(&e.ctx));
-        if (!e.n_srq) printf("-"); for (i = 0; i < e.n_srq; i++) printf("%s%04x", i ? "/" : "", e.srq[i]);
+        if (!e.n_srq) printf("-"); for (i = 0; i < e.n_srq; i++) { printf("%s%04x", i ? "/" : "", e.srq[i]); if (e.srq[i] != e.srq_stb[i]) printf("!%04x", e.srq_stb[i]); }   /* value!status byte when the two differ */
         printf(",");
         if (!e.n_errcb) printf("-"); for (i = 0; i < e.n_errcb; i++) printf("%s%d", i ? "/" : "", e.errcb[i]);
     }
